@@ -118,6 +118,12 @@ class C05(object):
                     for nm, val in (('pi', '0.02'), ('gamma', '0.5'), ('e', '1.25'), ('tau', '0.2'), ('sum', '4.0'), ('id', '7.0')):
                         hsec.AddVariable(nm, 'a local variable named like a library symbol', val)
                     hsec.AddVariable('USES_LOCALS', 'refers to them by their local names', 'pi*2.0 + gamma - e + tau*sum + id')
+                    # ... and locals whose names read as numbers to float(): INF (inflation), NAN, Infinity - each also the WHOLE
+                    # right-hand side of another local definition
+                    for nm, val in (('INF', '0.03'), ('NAN', '2.0'), ('Infinity', '9.0')):
+                        hsec.AddVariable(nm, 'a local variable whose name float() would accept', val)
+                        hsec.AddVariable('EXP_' + nm, 'expected value: the bare local name', nm)
+                    hsec.AddVariable('USES_NUMBERLIKE', 'refers to them by their local names', 'EXP_INF + 1.5*INF - NAN/Infinity + EXP_NAN')
                     rec.count('locals_named_like_math_symbols.declared')
             if case['eseed'] % 2 == 0 and len(sectors) >= 3:
                 # ONE Equation object (a behavioural rule written once) handed to several sectors: each sector's copy
